@@ -15,6 +15,7 @@ import PPV.Gen.FluidData
 import PPV.Model.ToolboxRun
 import PPV.Model.NxGraphRun
 import PPV.Gen.Coupling
+import PPV.Model.Codec
 
 open PPV
 
@@ -80,6 +81,17 @@ def handle (line : String) : String :=
     match PPV.Gen.Coupling.run name (args.map hexToFloat).toArray with
     | some r => floatToHex r
     | none => "bad-coupling"
+  | ["codec", cls] =>
+    let p : Option PPV.Model.Codec.FProp := match cls with
+      | "FluidPropertyInterExtra" => some (.inter [] [] true)
+      | "FluidPropertyConstant" => some (.const 0 false)
+      | "FluidPropertyLinear" => some (.lin 0 0)
+      | "FluidPropertyPolynominal" => some (.poly [] [])
+      | "FluidPropertySutherland" => some (.suth 0 0 0)
+      | _ => none
+    match p with
+    | some q => ",".intercalate (PPV.Model.Codec.fieldNames q)
+    | none => "unknown-class"
   | _ => "bad-op"
 
 partial def loop (h : IO.FS.Stream) (out : IO.FS.Stream) : IO Unit := do
